@@ -311,10 +311,19 @@ class LoopsMixin:
         n = self.iter_len(ex, p, it)
         i = V.fresh("ci", IntS)
         rng = z3.And(i >= 0, i < n)
+        direct = None
+        if isinstance(it, VIter) and it.kind == "range" and consumer in ("any", "all"):
+            lo, hi, st = [x.t for x in it.parts]
+            sts = z3.simplify(st)
+            if z3.is_int_value(sts) and sts.as_long() == 1 and not z3.is_int_value(z3.simplify(lo)):
+                # range(lo, hi) with a symbolic lower bound: quantify over the element itself (lo <= j < hi) instead of an
+                # offset, so that instantiation patterns mention the plain index
+                rng = z3.And(i >= lo, i < hi)
+                direct = VInt(i)
 
         def bind(q):
             q.assume(rng)
-            ex.assign_target(q, target, self.iter_elem(ex, q, it, i))
+            ex.assign_target(q, target, direct if direct is not None else self.iter_elem(ex, q, it, i))
         nodes = list(ifs) + [elt]
         ex.bound_vars.append(i)
         try:
@@ -469,9 +478,10 @@ class LoopsMixin:
         entry = {("entry_" + nm): (ex.deref(p, v) if isinstance(v, VCell) else v)
                  for nm, v in self._inv_env(ex, p, None, None).items()}
         tag = "loop%s" % ordinal
+        p_entry = p.fork()          # old(...) inside an invariant denotes the state at loop entry
         # 1. invariant holds initially
         env0 = self._inv_env(ex, p, kname, z3.IntVal(0), entry)
-        se = SpecEnv(ex, p, env0, old=None, contract=ex.current_contract)
+        se = SpecEnv(ex, p, env0, old=p_entry, contract=ex.current_contract)
         for j, inv in enumerate(invs):
             ex.emit("%s/init%d" % (tag, j), p, se.bool(inv, proving=True), "loop-init", dict(text=inv))
         # 2. havoc
@@ -507,7 +517,7 @@ class LoopsMixin:
         if n is not None:
             p.assume(k <= n)
         envk = self._inv_env(ex, p, kname, k, entry)
-        sek = SpecEnv(ex, p, envk, old=None, contract=ex.current_contract)
+        sek = SpecEnv(ex, p, envk, old=p_entry, contract=ex.current_contract)
         for inv in invs:
             p.assume(sek.bool(inv))
         # 3. exit path
@@ -533,7 +543,7 @@ class LoopsMixin:
             h0, s0 = dict(bp.heap), dict(bp.sigma)
             if spec.get("reveal"):
                 envb = self._inv_env(ex, bp, kname, k, entry)
-                seb = SpecEnv(ex, bp, envb, old=None, contract=ex.current_contract)
+                seb = SpecEnv(ex, bp, envb, old=p_entry, contract=ex.current_contract)
                 for hint in spec["reveal"]:
                     seb.value(hint)        # evaluation adds the instance definitions of opaque spec functions
             for o in ex.exec_block(bp, s.body):
@@ -544,7 +554,7 @@ class LoopsMixin:
                             if kk in s0 and not q.sigma[kk].eq(s0[kk]):
                                 raise Unsupported("loop %s modifies store %s: declare loops[%s]['modifies']" % (tag, kk, ordinal))
                     env1 = self._inv_env(ex, q, kname, k + 1, entry)
-                    se1 = SpecEnv(ex, q, env1, old=None, contract=ex.current_contract)
+                    se1 = SpecEnv(ex, q, env1, old=p_entry, contract=ex.current_contract)
                     for j, inv in enumerate(invs):
                         ex.emit("%s/preserve%d" % (tag, j), q, se1.bool(inv, proving=True), "loop-preserve", dict(text=inv))
                 elif o.kind == "break":
